@@ -132,6 +132,22 @@ impl Engine for CmpEngine {
             mk("setvar($74,array([int(#1),int(#2)])),foreach($69,$6b,$76,readvar($74),composite($5f,[setglobal($67,readvar($76))]))"),
             mk("setvar($78,int(#5)),setvar($66,closure([$61],[return(add(readvar($61),readvar($78)))])),setglobal($67,dyncall([int(#1)],readvar($66)))"),
             mk("ifelse(int(#1),setglobal($61,int(#1)),setglobal($61,int(#2))),while(int(#0),comment($78)),iftrue(nil,abort),iffalse(nil,comment($79))"),
+            // capture limit: 255 locals of main captured through a middle closure plus one of its
+            // own locals = 256 captured variables (TooManyUpvalues, never a panic); 255 is fine
+            {
+                let hx = |s: &str| format!("${}", s.bytes().map(|b| format!("{b:02x}")).collect::<String>());
+                let mk = |n: usize| {
+                    let mut cards: Vec<String> = (0..n).map(|i| format!("setvar({},int(#{i}))", hx(&format!("v{i}")))).collect();
+                    let mut reads = "int(#0)".to_string();
+                    for i in 0..n {
+                        reads = format!("add({reads},readvar({}))", hx(&format!("v{i}")));
+                    }
+                    let inner = format!("closure([],[return(add({reads},readvar({})))])", hx("y"));
+                    cards.push(format!("setglobal({},closure([],[setvar({},int(#1)),return({inner})]))", hx("g"), hx("y")));
+                    format!("cmp compile mod([],[fn($6d61696e,[],[{}])],[])", cards.join(","))
+                };
+                vec![mk(255), mk(254)]
+            },
             // known finding K3: a reference to the entry function compiles, but `main` has no label
             vec!["cmp wf mod([],[fn($6d61696e,[],[setglobal($67,function($6d61696e))])],[])".to_string()],
             vec!["cmp wf mod([],[fn($6d61696e,[],[setglobal($67,int(#1))]),fn($66,[],[return(call($6d61696e,[]))])],[])".to_string()],
@@ -169,6 +185,12 @@ impl Engine for CmpEngine {
             };
             out.push(line);
         }
+    }
+
+    /// C04: compile() returns a program or a compilation error — a panic, abort or hang of the real
+    /// compiler is a violation whatever the model says
+    fn run_spec(&self, _ops: &[String], impl_out: &[String]) -> Option<Vec<String>> {
+        Some(impl_out.iter().map(|r| if r == "panic" || r == "crash" || r == "hang" { "a compiled program or a compilation error (no panic, abort or hang)".to_string() } else { "?".to_string() }).collect())
     }
 
     fn tags(&self, ops: &[String], impl_out: &[String]) -> Vec<String> {
